@@ -150,6 +150,45 @@ def check(ctx: Ctx) -> None:
                               'equality compares attribute %r (%s) but %s does not serialise it: a JSON round trip '
                               'of an object with a non-default %s compares unequal'
                               % (a, compared[a], w.qualname, a), eq.path, eq.lineno, operand=a)
+    # ------------------------------------------------------------------ C17.h
+    ctx.rule('C17.h', 'a dict codec writes each of its keys for EVERY state of the object: a key added only under a test on the state '
+                      '(`if self.x > 0: d[k] = self.x`) is replaced by the reader\'s default for the other states, which is a different value '
+                      'unless the test is exactly "x != default"', floor=3)
+    for path, cname, nkeys in PAIRS:
+        w = M.func(path, cname + '._to_dict')
+        ctx.instance('C17.h', w.qualname)
+        sn_ = w.self_name or 'self'
+        cond = []
+
+        def scan(body, guards):
+            for st_ in body:
+                if isinstance(st_, ast.If):
+                    dep = any(isinstance(x_, ast.Name) and x_.id == sn_ for x_ in ast.walk(st_.test))
+                    scan(st_.body, guards + [st_.test] if dep else guards)
+                    scan(st_.orelse, guards + [st_.test] if dep else guards)
+                elif isinstance(st_, (ast.For, ast.While, ast.With, ast.Try)):
+                    for fld_ in ('body', 'orelse', 'finalbody'):
+                        scan(getattr(st_, fld_, []) or [], guards)
+                elif isinstance(st_, ast.Assign) and len(st_.targets) == 1 and isinstance(st_.targets[0], ast.Subscript) \
+                        and isinstance(st_.targets[0].slice, ast.Constant) and isinstance(st_.targets[0].slice.value, str) and guards:
+                    cond.append((st_, guards[-1]))
+        scan(w.node.body, [])
+        # a key written in BOTH branches of the test is written for every state
+        by_key = {}
+        for st_, g_ in cond:
+            by_key.setdefault((st_.targets[0].slice.value, id(g_)), []).append(st_)
+        bad_ = []
+        for (k_, gid_), sts_ in by_key.items():
+            owner = [n_ for n_ in ast.walk(w.node) if isinstance(n_, ast.If) and id(n_.test) == gid_][0]
+            in_body = any(any(x_ is s2 for x_ in ast.walk(ast.Module(body=owner.body, type_ignores=[]))) for s2 in sts_)
+            in_else = any(any(x_ is s2 for x_ in ast.walk(ast.Module(body=owner.orelse, type_ignores=[]))) for s2 in sts_)
+            if not (in_body and in_else):
+                bad_.append((k_, sts_[0], owner.test))
+        ctx.obligation('C17.h', w.qualname, not bad_, {'keys_written_under_a_state_test': [(k_, norm(t_)[:50]) for k_, _s, t_ in bad_]})
+        for k_, st_, t_ in bad_[:1]:
+            ctx.violation('C17.h', w.qualname, 'key %r is written only when `%s`: for the other states the reader falls back to its default (or '
+                          'fails), so the object read back differs from the one written' % (k_, norm(t_)[:60]), w.path, st_.lineno,
+                          operand='conditional-key:' + k_)
     # ------------------------------------------------------------------ C17.g
     from ..idioms import grouped_items_through_replacing_writer, replacing_writers
     ctx.rule('C17.g', 'a reader never feeds the items of one stored GROUP (a list per key) through a writer that replaces the entry of the '
